@@ -1,8 +1,9 @@
 (* boundary/UnixLoop: executable model of the raw-socket loops of
-   anyio._backends._asyncio.UNIXSocketStream.receive / send (lines 1459-1498 of the pinned tree, with
-   _RawSocketMixin._wait_until_readable/_wait_until_writable/aclose, 1408-1452) over a KERNEL ORACLE SCRIPT:
-   the script lists, in order, what the kernel answers to each recv()/send() call and how each wait for
-   readiness ends.  The recursion is structural on the script (explicit fuel = script length); a script
+   anyio._backends._asyncio.UNIXSocketStream.receive / send / send_eof (with
+   _RawSocketMixin._wait_until_readable/_wait_until_writable/aclose) over a KERNEL ORACLE SCRIPT:
+   the script lists, in order, what the kernel answers to each recv()/send() call, how each wait for
+   readiness ends, and which entry points of the SAME stream other tasks invoke while the call is parked
+   in that wait.  The recursion is structural on the script (explicit fuel = script length); a script
    that ends before the call does gives UFuel, which the theorems exclude.
    Definitions only: proofs live in UnixLoopProofs.v. *)
 From AV Require Import Base.
@@ -12,104 +13,177 @@ Inductive wake :=
 | WCancel     (* the task was cancelled while waiting: CancelledError out of `await f` *)
 | WClose.     (* another task ran aclose(): _closing = True, socket closed, f.set_result(None) *)
 
+(* entry points of the stream another task may invoke while a call is parked *)
+Inductive entry := ESend | ESendEof | ESendFds | EReceive | EReceiveFds.
+
 Inductive sresp :=            (* answer to raw_socket.send(view) *)
 | SOk (n : nat)               (* n bytes accepted (contract: 1 <= n <= len view) *)
-| SBlock (w : wake)           (* BlockingIOError, then the wait ends as w *)
+| SBlock (es : list entry) (w : wake)
+                              (* BlockingIOError; while the call is parked other tasks invoke es (in order);
+                                 then the wait ends as w *)
 | SErr.                       (* any other OSError *)
 
 Inductive rresp :=            (* answer to raw_socket.recv(max_bytes) *)
 | KData (d : list Z)          (* d returned; [] is EOF (contract: len d <= max_bytes) *)
-| KBlock (w : wake)
+| KBlock (es : list entry) (w : wake)
 | KErr.
 
 Inductive ures :=
 | UDone | UData (d : list Z) | UEof | UClosed | UBroken | UCancelled | UBusy | UValueError
+| UAccepted                   (* an intruding entry point got past its guard (its own loop is not modelled) *)
 | UFuel.                      (* script exhausted: not an outcome of the real code *)
 
 (* result of one call: outcome, bytes accepted by the kernel (send), number of kernel calls made,
-   number of waits, the stream's _closing flag afterwards, the guard flag afterwards *)
+   number of waits, the stream's _closing flag afterwards, the guard flag afterwards, whether
+   shutdown(SHUT_WR) was performed on the socket, the outcomes of the intruding calls in order *)
 Record uout := mkout {
-  u_res : ures; u_handed : list Z; u_calls : nat; u_waits : nat; u_closing : bool; u_guard : bool
+  u_res : ures; u_handed : list Z; u_calls : nat; u_waits : nat; u_closing : bool; u_guard : bool;
+  u_shut : bool; u_intr : list ures
 }.
 
-(* `while view:` loop of send(); view[bytes_sent:] is skipn, the accepted bytes are firstn *)
-Fixpoint send_loop (closing : bool) (view : list Z) (script : list sresp)
-  : ures * list Z * nat * nat * bool :=
+(* which ResourceGuard an entry point enters.  eofg = true is HEAD: send_eof() runs under the send guard;
+   eofg = false is the variant without that guard (seeded change C18/d), kept for the refutation witness *)
+Definition uses_send_guard (eofg : bool) (e : entry) : bool :=
+  match e with ESend | ESendFds => true | ESendEof => eofg | _ => false end.
+Definition uses_recv_guard (e : entry) : bool :=
+  match e with EReceive | EReceiveFds => true | _ => false end.
+
+(* another task invokes entry point e while the send guard is sg and the receive guard is rg:
+   ResourceGuard.__enter__ raises BusyResourceError and changes nothing if the guard is taken; otherwise the
+   call is admitted; the only admitted effect modelled is send_eof's shutdown(SHUT_WR) *)
+Definition intrude (eofg sg rg shut : bool) (e : entry) : ures * bool :=
+  if orb (andb (uses_send_guard eofg e) sg) (andb (uses_recv_guard e) rg) then (UBusy, shut)
+  else (UAccepted, match e with ESendEof => true | _ => shut end).
+
+Fixpoint intrude_all (eofg sg rg shut : bool) (es : list entry) : list ures * bool :=
+  match es with
+  | [] => ([], shut)
+  | e :: r => let '(x, sh1) := intrude eofg sg rg shut e in
+              let '(xs, sh2) := intrude_all eofg sg rg sh1 r in (x :: xs, sh2)
+  end.
+
+(* `while view:` loop of send(); view[bytes_sent:] is skipn, the accepted bytes are firstn.
+   The loop runs inside `with self._send_guard:` so intruders see sg = true. *)
+Fixpoint send_loopv (eofg closing shut : bool) (view : list Z) (script : list sresp)
+  : ures * list Z * nat * nat * bool * bool * list ures :=
   match view with
-  | [] => (UDone, [], 0, 0, closing)
+  | [] => (UDone, [], 0, 0, closing, shut, [])
   | _ :: _ =>
       match script with
-      | [] => (UFuel, [], 0, 0, closing)
+      | [] => (UFuel, [], 0, 0, closing, shut, [])
       | SOk n :: r =>
-          let '(res, h, c, w, cl) := send_loop closing (skipn n view) r in
-          (res, firstn n view ++ h, S c, w, cl)
-      | SBlock WReady :: r =>
-          let '(res, h, c, w, cl) := send_loop closing view r in (res, h, S c, S w, cl)
-      | SBlock WCancel :: r => (UCancelled, [], 1, 1, closing)
-      | SBlock WClose :: r =>
-          let '(res, h, c, w, cl) := send_loop true view r in (res, h, S c, S w, cl)
-      | SErr :: r => ((if closing then UClosed else UBroken), [], 1, 0, closing)
+          let '(res, h, c, w, cl, sh, ir) := send_loopv eofg closing shut (skipn n view) r in
+          (res, firstn n view ++ h, S c, w, cl, sh, ir)
+      | SBlock es wk :: r =>
+          let '(xs, sh1) := intrude_all eofg true false shut es in
+          match wk with
+          | WReady =>
+              let '(res, h, c, w, cl, sh, ir) := send_loopv eofg closing sh1 view r in
+              (res, h, S c, S w, cl, sh, xs ++ ir)
+          | WCancel => (UCancelled, [], 1, 1, closing, sh1, xs)
+          | WClose =>
+              let '(res, h, c, w, cl, sh, ir) := send_loopv eofg true sh1 view r in
+              (res, h, S c, S w, cl, sh, xs ++ ir)
+          end
+      | SErr :: r => ((if closing then UClosed else UBroken), [], 1, 0, closing, shut, [])
       end
   end.
 
-(* `while True:` loop of receive() *)
-Fixpoint recv_loop (closing : bool) (script : list rresp) : ures * nat * nat * bool :=
+(* `while True:` loop of receive(), inside `with self._receive_guard:` (intruders see rg = true) *)
+Fixpoint recv_loopv (eofg closing shut : bool) (script : list rresp)
+  : ures * nat * nat * bool * bool * list ures :=
   match script with
-  | [] => (UFuel, 0, 0, closing)
-  | KData d :: r => ((match d with [] => UEof | _ => UData d end), 1, 0, closing)
-  | KBlock WReady :: r => let '(res, c, w, cl) := recv_loop closing r in (res, S c, S w, cl)
-  | KBlock WCancel :: r => (UCancelled, 1, 1, closing)
-  | KBlock WClose :: r => let '(res, c, w, cl) := recv_loop true r in (res, S c, S w, cl)
-  | KErr :: r => ((if closing then UClosed else UBroken), 1, 0, closing)
+  | [] => (UFuel, 0, 0, closing, shut, [])
+  | KData d :: r => ((match d with [] => UEof | _ => UData d end), 1, 0, closing, shut, [])
+  | KBlock es wk :: r =>
+      let '(xs, sh1) := intrude_all eofg false true shut es in
+      match wk with
+      | WReady => let '(res, c, w, cl, sh, ir) := recv_loopv eofg closing sh1 r in (res, S c, S w, cl, sh, xs ++ ir)
+      | WCancel => (UCancelled, 1, 1, closing, sh1, xs)
+      | WClose => let '(res, c, w, cl, sh, ir) := recv_loopv eofg true sh1 r in (res, S c, S w, cl, sh, xs ++ ir)
+      end
+  | KErr :: r => ((if closing then UClosed else UBroken), 1, 0, closing, shut, [])
   end.
 
 (* send(item): checkpoint (cancel0: a cancellation is delivered there), then the guard
-   (busy: another task is inside send/send_eof), then the loop; the `with` block releases the guard
+   (busy: another task is inside send/send_eof/send_fds), then the loop; the `with` block releases the guard
    on every exit *)
-Definition unix_send (cancel0 busy closing0 : bool) (item : list Z) (script : list sresp) : uout :=
-  if cancel0 then mkout UCancelled [] 0 0 closing0 busy else
-  if busy then mkout UBusy [] 0 0 closing0 true else
+Definition unix_sendv (eofg cancel0 busy closing0 : bool) (item : list Z) (script : list sresp) : uout :=
+  if cancel0 then mkout UCancelled [] 0 0 closing0 busy false [] else
+  if busy then mkout UBusy [] 0 0 closing0 true false [] else
   let guard_in := true in
-  let '(res, h, c, w, cl) := send_loop closing0 item script in
+  let '(res, h, c, w, cl, sh, ir) := send_loopv eofg closing0 false item script in
   let guard_out := andb guard_in false in
-  mkout res h c w cl guard_out.
+  mkout res h c w cl guard_out sh ir.
 
-Definition unix_recv (cancel0 busy closing0 : bool) (mx : nat) (script : list rresp) : uout :=
-  if Nat.eqb mx 0 then mkout UValueError [] 0 0 closing0 busy else
-  if cancel0 then mkout UCancelled [] 0 0 closing0 busy else
-  if busy then mkout UBusy [] 0 0 closing0 true else
-  let '(res, c, w, cl) := recv_loop closing0 script in
-  mkout res [] c w cl false.
+Definition unix_recvv (eofg cancel0 busy closing0 : bool) (mx : nat) (script : list rresp) : uout :=
+  if Nat.eqb mx 0 then mkout UValueError [] 0 0 closing0 busy false [] else
+  if cancel0 then mkout UCancelled [] 0 0 closing0 busy false [] else
+  if busy then mkout UBusy [] 0 0 closing0 true false [] else
+  let '(res, c, w, cl, sh, ir) := recv_loopv eofg closing0 false script in
+  mkout res [] c w cl false sh ir.
+
+(* HEAD *)
+Definition send_loop := send_loopv true.
+Definition recv_loop := recv_loopv true.
+Definition unix_send := unix_sendv true.
+Definition unix_recv := unix_recvv true.
+
+(* erase the intrusions from a script *)
+Definition strip_s (a : sresp) : sresp := match a with SBlock _ w => SBlock [] w | x => x end.
+Definition strip_r (a : rresp) : rresp := match a with KBlock _ w => KBlock [] w | x => x end.
 
 (* ---- observations and codec ---- *)
 Definition ures_obs (r : ures) : list Z :=
   match r with
   | UDone => [0] | UCancelled => [2] | UData d => 3 :: nz (length d) :: d | UEof => [4] | UClosed => [5]
-  | UBroken => [6] | UBusy => [7] | UValueError => [8] | UFuel => [9]
+  | UBroken => [6] | UBusy => [7] | UValueError => [8] | UFuel => [9] | UAccepted => [14]
   end%Z.
+
+Definition intr_code (r : ures) : Z := match r with UBusy => 7 | UAccepted => 14 | _ => 15 end%Z.
 
 Definition observe (o : uout) : list Z :=
   ures_obs (u_res o) ++ [nz (u_calls o); nz (u_waits o); bz (u_closing o); bz (u_guard o)]
-  ++ ((-1)%Z :: u_handed o).
+  ++ ((-1)%Z :: u_handed o) ++ ((-2)%Z :: bz (u_shut o) :: map intr_code (u_intr o)).
 
 Definition decode_wake (c : Z) : wake := match c with 1 => WReady | 2 => WCancel | _ => WClose end%Z.
 
-(* send script: pairs code :: arg *)
+Definition decode_entry (c : Z) : entry :=
+  match c with 1 => ESend | 2 => ESendEof | 3 => ESendFds | 4 => EReceive | _ => EReceiveFds end%Z.
+
+(* send scripts encode the intruders of a park in the argument, base 4, least significant digit first, 0 ends *)
+Fixpoint decode_digits (fuel : nat) (a : Z) : list entry :=
+  match fuel with
+  | O => []
+  | S k => if Z.eqb (a mod 4) 0 then [] else decode_entry (a mod 4) :: decode_digits k (a / 4)
+  end.
+
+(* send script: pairs code :: arg.   0 n = Ok n; 1/2/3 = would-block ending Ready/Cancel/Close; 4 = Err;
+   11/12/13 a = would-block with the intruders encoded in a, ending Ready/Cancel/Close *)
 Fixpoint decode_sscript (l : list Z) : list sresp :=
   match l with
   | c :: a :: r =>
-      (match c with 0 => SOk (zn a) | 4 => SErr | _ => SBlock (decode_wake c) end%Z) :: decode_sscript r
+      (match c with
+       | 0 => SOk (zn a) | 4 => SErr
+       | 11 | 12 | 13 => SBlock (decode_digits 8 a) (decode_wake (c - 10))
+       | _ => SBlock [] (decode_wake c)
+       end%Z) :: decode_sscript r
   | _ => []
   end.
 
-(* recv script: code :: n :: payload(n) *)
+(* recv script: code :: n :: payload(n).  0 = data; 1/2/3 = would-block; 4 = Err;
+   11/12/13 = would-block whose payload lists the intruders' entry codes *)
 Fixpoint decode_rscript (fuel : nat) (l : list Z) : list rresp :=
   match fuel with
   | O => []
   | S k =>
       match l with
       | c :: n :: r =>
-          (match c with 0 => KData (firstn (zn n) r) | 4 => KErr | _ => KBlock (decode_wake c) end%Z)
+          (match c with
+           | 0 => KData (firstn (zn n) r) | 4 => KErr
+           | 11 | 12 | 13 => KBlock (map decode_entry (firstn (zn n) r)) (decode_wake (c - 10))
+           | _ => KBlock [] (decode_wake c)
+           end%Z)
           :: decode_rscript k (skipn (zn n) r)
       | _ => []
       end
